@@ -95,6 +95,8 @@ def run(tier):
     if os.path.exists(HARNESS):
         from harness import C02_units
         C02_units.add(run, tier)
+    from harness import c02u2
+    c02u2.add(run, tier)
     run.finish()
 
 
